@@ -84,6 +84,8 @@ func (b *proxyIDRingBuffer) Append(proxyID int64, sourceShard history.ClusterSha
 			}
 		}
 	}
+	// Inserting holes above may have filled the buffer
+	b.ensureCapacity()
 	pos := (b.head + b.size) % len(b.entries)
 	b.entries[pos] = proxyIDMapping{sourceShard: sourceShard, sourceTask: sourceTask}
 	b.size++
